@@ -127,6 +127,15 @@ func makeRemoteSource(sourceType string, u *url.URL, subPath string) (RemoteSour
 		}
 	}
 
+	// These rules are also enforced by ParseRemoteSource, but addresses
+	// assembled from parts by MakeRemoteSource must satisfy them too.
+	if u.User != nil {
+		return RemoteSource{}, fmt.Errorf("must not use username or password in URL portion")
+	}
+	if _, err := url.ParseQuery(u.RawQuery); err != nil {
+		return RemoteSource{}, fmt.Errorf("invalid URL query string syntax in %q: %w", u.RawQuery, err)
+	}
+
 	err := typeImpl.PrepareURL(u)
 	if err != nil {
 		return RemoteSource{}, err
